@@ -16,16 +16,16 @@ def plans(c, maxf):
     ps.sort(key=lambda p: (p["shape"], sorted(p["feats"])))
     return ps
 
-def declarations(c, tier, with_encoded_as=True, nrand=None):
+def declarations(c, tier, with_encoded_as=True, nrand=None, for_codec=True):
     thorough = tier == "thorough"
     ps = plans(c, 2)
     decls = []
     for p in ps:
         if not with_encoded_as and "encoded_as" in p["feats"]: continue
-        decls.append(D.from_plan(p["shape"], p["feats"], len(decls)))
+        decls.append(D.from_plan(p["shape"], p["feats"], len(decls), for_codec))
     r = random.Random(vlib.seed())
     for _ in range(nrand if nrand is not None else (1500 if thorough else 250)):
-        decls.append(D.rand_decl(r, len(decls)))
+        decls.append(D.rand_decl(r, len(decls), for_codec))
     for i, d in enumerate(decls): d["id"] = i
     return decls
 
